@@ -33,8 +33,8 @@ from mc.ref import c13_model as M
 from mc.ref.c13_model import HUGE
 
 FORMS = ("lit", "var", "strlit", "strvar")
-PARTS = ("slice", "interrupt", "cont", "nest", "tablerow")
-SHARDS_PER_PART = {"slice": 72, "interrupt": 6, "cont": 24, "nest": 10, "tablerow": 24}
+PARTS = ("slice", "interrupt", "cont", "nest", "tablerow", "blank", "freecols")
+SHARDS_PER_PART = {"slice": 72, "interrupt": 6, "cont": 24, "nest": 10, "tablerow": 24, "blank": 12, "freecols": 4}
 
 
 def maxlen(tier: str) -> int:
@@ -333,7 +333,87 @@ def tablerow_cases(g: Any) -> Iterator[dict[str, Any]]:
                                    offset=M.arg(off, form))], ss)
 
 
-GROUPS = {"slice": slice_groups, "interrupt": interrupt_groups, "cont": cont_groups, "nest": nest_groups,
+# ---------------------------------------------------------------------------
+# part: blank -- loops that write nothing themselves, alone inside other block tags
+# ---------------------------------------------------------------------------
+WRAPPERS = ("if", "unless", "ifelse", "elsif", "case", "caseelse", "capture", "for")
+
+# (kind, string_sequences, n, limit, offset, reversed): loops that visit nothing in every documented
+# way, and a few that do visit items
+BLANK_LOOPS: list[tuple[str, bool, int, Optional[int], Optional[int], bool]] = [
+    ("array", False, 0, None, None, False), ("hash", False, 0, None, None, False),
+    ("string", True, 0, None, None, False), ("range_lit", False, 0, None, None, True),
+    ("array", False, 3, 0, None, False), ("array", False, 3, -2, None, False), ("array", False, 3, None, 3, False),
+    ("array", False, 3, None, HUGE, False), ("hash", False, 2, 1, 5, True), ("range_lit", False, 2, 0, 1, False),
+    ("array", False, 3, None, None, False), ("array", False, 3, 1, 2, False), ("hash", False, 2, None, None, False),
+    ("range_lit", False, 2, None, None, True),
+]
+
+
+def _blank_bodies(c: dict[str, Any]) -> list[list[Any]]:
+    return [[], [M.text(" ")], [M.text("\n  ")], [{"t": "cnt", "at": None}], [{"t": "brk", "at": None}],
+            [M.silent("{% assign z = 1 %}")], [M.text(" "), M.silent("{% assign z = i %}"), {"t": "cnt", "at": None}],
+            [M.item("i", c)]]
+
+
+BLANK_ELSES: list[Optional[list[Any]]] = [None, [], [M.text(" ")], [M.text("E")], [M.silent("{% assign z = 2 %}"), M.text("E")]]
+
+
+def blank_groups(tier: str) -> list[Any]:
+    core = ("if", "case", "capture", "for")  # one per family, used for the deepest level of the tier
+    chains: list[tuple[str, ...]] = [()] + [(w,) for w in WRAPPERS]
+    if tier == "quick":
+        chains += list(itertools.product(core, repeat=2))
+    else:
+        chains += list(itertools.product(WRAPPERS, repeat=2)) + list(itertools.product(core, repeat=3))
+    return [("blank", chain, li) for chain in chains for li in range(len(BLANK_LOOPS))]
+
+
+def blank_cases(g: Any) -> Iterator[dict[str, Any]]:
+    _, chain, li = g
+    kind, ss, n, lim, off, rev = BLANK_LOOPS[li]
+    c = M.coll(kind, n)
+    for body, els, sibling in itertools.product(_blank_bodies(c), BLANK_ELSES, (False, True)):
+        if sibling and len(chain) == 0:
+            continue
+        form = "var" if len(chain) % 2 else "lit"
+        loop = M.for_("i", c, body, limit=M.arg(lim, form), offset=M.arg(off, form), rev=rev, else_=els)
+        inner: list[Any] = [M.text("["), loop, M.text("]")] if sibling else [loop]
+        for d, w in enumerate(reversed(chain)):
+            if w == "for":
+                wc = M.coll("range_lit", 2, f"w{d}")
+                inner = [M.for_(f"w{d}", wc, inner)]
+            else:
+                inner = [M.wrap(w, inner)]
+        yield prog(inner, ss)
+
+
+# ---------------------------------------------------------------------------
+# part: freecols -- cols values the docs are silent on: layout-free consistency only
+# ---------------------------------------------------------------------------
+def cols_arg(v: Any, f: str) -> dict[str, Any]:
+    return {"v": v, "f": f}
+
+
+FREE_COLS: list[dict[str, Any]] = (
+    [cols_arg(v, "lit") for v in (0, -1, -3, None, "x", "", "2", "0", "-1", HUGE, -HUGE)]
+    + [cols_arg(v, "var") for v in (0, -1, -3, None, "x", "", "2", "0", "-1", 2.5, 0.5, -1.5, HUGE, -HUGE, True, False)]
+    + [cols_arg(0, "missing")]
+)
+
+
+def freecols_groups(tier: str) -> list[Any]:
+    return [("freecols", kind, n) for kind in ("array", "range_lit", "hash") for n in range(maxlen(tier) + 1)]
+
+
+def freecols_cases(g: Any) -> Iterator[dict[str, Any]]:
+    _, kind, n = g
+    c = M.coll(kind, n)
+    for ca, (lim, off, _rev) in itertools.product(FREE_COLS, SLICES[:2] + SLICES[4:]):
+        yield prog([M.tablerow("i", c, M.free_body("i", c), cols=ca, limit=M.arg(lim, "var"), offset=M.arg(off))])
+
+
+GROUPS = {"blank": blank_groups, "freecols": freecols_groups, "slice": slice_groups, "interrupt": interrupt_groups, "cont": cont_groups, "nest": nest_groups,
           "tablerow": tablerow_groups}
 
 
@@ -349,6 +429,10 @@ def cases_of(g: Any, res: Optional[Result] = None) -> Iterator[dict[str, Any]]:
         return nest_cases(g)
     if part == "tablerow":
         return tablerow_cases(g)
+    if part == "blank":
+        return blank_cases(g)
+    if part == "freecols":
+        return freecols_cases(g)
     raise AssertionError(part)
 
 
@@ -425,6 +509,9 @@ def without_else(p: dict[str, Any]) -> dict[str, Any]:
                 n["body"] = walk(n["body"])
                 if n.get("else") is not None:
                     n["else"] = None
+            elif n["t"] == "wrap":
+                n = dict(n)
+                n["body"] = walk(n["body"])
             out.append(n)
         return out
 
@@ -443,8 +530,59 @@ def name_clause(p: dict[str, Any], mode: str) -> str:
     return "tablerow-structure-or-items" if has_tr else "visited-items"
 
 
+def check_free(p: dict[str, Any], part: str, res: Optional[Result] = None) -> list[dict[str, Any]]:
+    """One tablerow whose ``cols`` value the docs are silent on: layout-free consistency only."""
+    src, data, outs = run_real(p)
+    (node,) = p["nodes"]
+    feats = M.features(p)
+    per_mode: dict[str, list[tuple[str, str]]] = {}
+    stats: Any = {}
+    for mode, o in outs.items():
+        if not o.ok:
+            per_mode[mode] = [("no-error:" + str(o.error_class) + (":" + str(o.where) if o.is_other_error else ""),
+                               f"{'Liquid error' if o.is_liquid_error else 'non-Liquid exception'} {o.error_class}: {o[2]}")]
+            stats = stats or M.check_free_tablerow(p, "")[1]
+        else:
+            per_mode[mode], stats = M.check_free_tablerow(p, o.value)
+    if res is not None:
+        kept = stats["kept"]
+        bad_modes = {m for m, b in per_mode.items() if b}
+        for mode in outs:
+            res.case(nontrivial=[src, sorted(data.items(), key=lambda kv: kv[0]), mode] if kept > 0 else None,
+                     outcome=f"{part}:kept={min(kept, 9)}:rows={min(stats['rows'], 9)}" + (":VIOLATION" if mode in bad_modes else ""),
+                     sample={"template": src, "data": data, "mode": mode, "output": outs[mode].value if outs[mode].ok else
+                             outs[mode].error_class} if (kept > 1 and len(res.samples) < 1) else None)
+        res.count("programs", 1)
+        res.count("loops_executed_in_model", 1)
+        res.count("items_visited_in_model", kept)
+        res.count("unspecified_excluded", 1)
+        res.count("unspecified_layout_for_undocumented_cols_value", 1)
+    viols = []
+    clauses = sorted({c for b in per_mode.values() for c, _ in b})
+    for clause in clauses:
+        hit = sorted(m for m, b in per_mode.items() if any(c == clause for c, _ in b))
+        msg = next(msg for c, msg in per_mode[hit[0]] if c == clause)
+        modes = "both" if len(hit) == len(outs) else hit[0]
+        sig = {"part": part, "tag": "tablerow", "kind": node["coll"]["kind"], "feature": "+".join(feats) or "plain",
+               "mode": modes, "cols": M.cols_number_class(node["cols"]), "clause": ("tablerow-consistency:" + clause) if not clause.startswith("no-error") else "no-error"}
+        if clause.startswith("no-error"):
+            sig["exc"] = clause.split(":")[1]
+        o = outs[hit[0]]
+        what = (f"{src!r} data={data!r} ({modes}) rendered {o.value if o.ok else o.error_class!r}: {msg} "
+                f"(helpers must be consistent with the rendered rows/cells and the visited items for every cols value)")
+        viols.append({"signature": sig, "what": what[:1500], "case": {"prog": p, "part": part}})
+    return viols
+
+
+def is_free(p: dict[str, Any]) -> bool:
+    ns = p["nodes"]
+    return len(ns) == 1 and ns[0]["t"] == "tablerow" and not M.cols_documented(ns[0]["cols"])
+
+
 def check_prog(p: dict[str, Any], part: str, res: Optional[Result] = None) -> list[dict[str, Any]]:
     """Run one program in both modes; return violations; record coverage in ``res``."""
+    if is_free(p):
+        return check_free(p, part, res)
     src, data, outs = run_real(p)
     want0, stats = M.expected(p, 0)
     wants = [want0]
@@ -467,7 +605,7 @@ def check_prog(p: dict[str, Any], part: str, res: Optional[Result] = None) -> li
         kept, empty = stats["kept"], stats["empty"]
         label = (f"{part}:kept={min(kept, 9)}{'+' if kept > 9 else ''}:empty_loops={min(empty, 3)}"
                  f":else={min(stats['else_rendered'], 2)}:intr={min(stats['interrupts_fired'], 2)}")
-        nontrivial = kept > 0 and bool(feats)
+        nontrivial = bool(feats) and (kept > 0 or (stats["else_rendered"] > 0 and "wrapped" in feats))
         for mode in outs:
             res.case(nontrivial=[src, sorted(data.items(), key=lambda kv: kv[0]), mode] if nontrivial else None,
                      outcome=label + (":VIOLATION" if mode in bad else ""),
